@@ -178,6 +178,9 @@ func verifHarness_C20_handler() {
 		verifReach("rejected-with-error")
 	} else {
 		verifReach("served")
+		// "either serves the stream or rejects it with an error": a nil result means the stream was really
+		// taken on (the outgoing stream was opened / the routing receiver opened its source stream)
+		verifAssert(fsrc.opened || src.opened, "stream-without-error-was-actually-served")
 	}
 	// a following well-formed stream is served normally
 	src2 := e.newSource(0)
